@@ -120,11 +120,11 @@ def faithfulness(src, n=2, procs=2, lean=True, strategies=PL.STRATS):
                       placed=placed)
         else:
             src.reach('placed')
-            # classification of a mismatch (for the signature): the process was predicted on an instance but the real
-            # start found no resource, while an earlier sequence of the application had been started before it
+            # classification of a mismatch (for the signature): an earlier sequence of the application had been
+            # started before this process (its load is then visible to the real start only - finding F20)
             seqs = {p.process_name: p.rules.start_sequence for p, _ in plist2}
             earlier = [q for q in predicted if seqs[q] < seqs[name] and q in placed]
-            cause = ':after-earlier-sequence' if (name in nores and earlier) else ''
+            cause = ':after-earlier-sequence' if earlier else ''
             src.check('predicted-placement-is-real', sorted(placed.get(name, [])) == where, sig=sig + cause,
                       name=name, predicted=where, real=placed.get(name))
     for name in placed:
